@@ -122,7 +122,11 @@ def check_doc(R, M, case, prop, reused=None):
     if reused is not None:
         o = reused.parse(R.text, M)
     else:
-        o = observe.parse_observed(R.text)
+        # every fourth document is handed to the parser as a TokenScanner object instead of a string
+        as_scanner = (M.cases % 4 == 0)
+        if as_scanner:
+            M.count("parses_from_scanner_object")
+        o = observe.parse_observed(R.text, as_scanner=as_scanner)
     deciding = {"C03": {"G4"}, "C04": {"G8"}}[prop]
     apply_parse_monitors(o, M, case, deciding, skip=() if prop == "C04" else ("G5",))
     cover_transitions(o, M)
